@@ -83,6 +83,7 @@ def _run_case(case):
 
 
 def oracle(ctx, deep=False):
+    reuse_oracle(ctx)
     n = ctx.n(120, 3000) * (3 if deep else 1)
     for i in range(n):
         cfg = meanx.rand_cfg(ctx.rng)
@@ -104,7 +105,66 @@ def oracle(ctx, deep=False):
                 break
 
 
+def control_case(seed):
+    """Role swap through the public entry point: Experiment.analyze(data, control=c) for EVERY variant id c - ids that are
+    falsy without being the smallest (0 next to -1, False next to ... ) included - is the metric analysed with control c,
+    and exchanging the roles mirrors the result (effect and statistic negated, means exchanged)."""
+    import random
+    import numpy as np
+    import pandas as pd
+    import tea_tasting as tt
+    rng = random.Random(seed)
+    ids = rng.choice([[-1, 0], [-2, 0, 1], [0, 1], [-1, 0, 3], [-1.5, 0.0]])
+    r = np.random.default_rng(seed)
+    rows = [(v, float(x)) for v in ids for x in r.normal(10 + ids.index(v), 2, rng.choice([8, 15]))]
+    df = pd.DataFrame({"variant": [a for a, _ in rows], "x": [b for _, b in rows]})
+    alt = rng.choice(meanx.ALTS)
+    metric = tt.Mean("x", alternative=alt)
+    fails = []
+    for c in ids:
+        res = tt.Experiment(m=metric).analyze(df, control=c, all_variants=True)
+        want_pairs = [(c, t) for t in ids if t != c]
+        if list(res) != want_pairs:
+            fails.append(f"control={c!r}: pairs {list(res)} != {want_pairs}")
+            continue
+        for (cc, t) in want_pairs:
+            got = res[(cc, t)]["m"]
+            ref = metric.analyze(df, cc, t, "variant")
+            if any(not _close(float(a), float(b), 1e-12) for a, b in zip(got, ref)):
+                fails.append(f"control={c!r} treatment={t!r}: {tuple(got)[:3]} != metric analysed with that control {tuple(ref)[:3]}")
+            back = tt.Mean("x", alternative=MIRROR[alt]).analyze(df, t, cc, "variant")
+            if not (_close(back.effect_size, -got.effect_size, 1e-9, 1e-12) and _close(back.control, got.treatment, 1e-12)
+                    and _close(back.pvalue, got.pvalue, 1e-9, 1e-12)):
+                fails.append(f"control={c!r} treatment={t!r}: exchanging the roles does not mirror the result")
+    return fails
+
+
+def reuse_oracle(ctx):
+    for parameter in ["analyze"]:
+        for _ in range(ctx.n(3, 40)):
+            seed = ctx.rng.randint(0, 10**6)
+            fails = meanx.reuse_history(seed, parameter)
+            ctx.evaluations += 1
+            ctx.count("oracle:reused-object-history")
+            for f in fails:
+                ctx.violations.append({"what": "result depends on earlier calls on the same metric / experiment object", "detail": f,
+                                       "input": {"reuse_history": True, "seed": seed, "parameter": parameter}})
+    for _ in range(ctx.n(8, 100)):
+        seed = ctx.rng.randint(0, 10**6)
+        ctx.evaluations += 1
+        ctx.count("oracle:control-ids")
+        for f in control_case(seed)[:2]:
+            ctx.violations.append({"what": "Experiment.analyze with an explicit control: " + f.split(":")[0], "detail": f,
+                                   "input": {"control_case": True, "seed": seed}})
+
+
 def replay(ctx, rp):
+    if rp["input"].get("reuse_history"):
+        fails = meanx.reuse_history(rp["input"]["seed"], rp["input"]["parameter"])
+        return {"fails": bool(fails), "failures": fails}
+    if rp["input"].get("control_case"):
+        fails = control_case(rp["input"]["seed"])
+        return {"fails": bool(fails), "failures": fails}
     bad = _run_case(rp["input"])
     return {"fails": bool(bad), "failures": [str(b) for b in bad]}
 
